@@ -77,34 +77,20 @@ theorem parse_zero : C10.parseIntBits 64 [48] = some 0 := by decide +kernel
 /-- **the marker line through `loadManifest`**: on any tree in which no ancestor-or-self of the
 directory is a file, the line loads, creates the directory and its missing ancestors, and leaves every
 file (and every other directory) as it was -/
-theorem fsLine_marker (path : List Bytes) (hpath : PathOK path) (t : FsTree)
+theorem fsLine_marker_core (line nm : Bytes) (path : List Bytes) (t : FsTree)
+    (hsplit : splitOn bSpace line = [nm, emptyLoc, markerTok]) (hun : C10.fsUnescape nm = prefixOf path)
+    (hok : C10.componentsOk path = true) (hns : ∀ c ∈ path, bSlash ∉ c)
     (hnofile : ∀ pre, pre ≠ [] → pre <+: path → t.files.any (·.1 = pre) = false) :
-    ∃ t', C10.fsLine (joinWith bSpace [fsEscape (prefixOf path), emptyLoc, markerTok]) t = some t' ∧
+    ∃ t', C10.fsLine line t = some t' ∧
       t'.files = t.files ∧
       (∀ d ∈ t'.dirs, d ∈ t.dirs ∨ ∃ pre, pre ≠ [] ∧ pre <+: path ∧ d = pre) ∧
       (∀ d ∈ t.dirs, d ∈ t'.dirs) ∧
       (∀ pre, pre ≠ [] → pre <+: path → pre ∈ t'.dirs) := by
-  obtain ⟨hname, hpne', hpdel, hsp⟩ := prefixOf_spec path hpath
-  obtain ⟨_, _, n3, _⟩ := fsEscape_token (prefixOf path) hpne' hpdel
-  obtain ⟨_, e2, _⟩ := locator_token _ _ emptyLoc_ok
-  obtain ⟨_, m2, _⟩ := markerTok_token
-  have hsplit : splitOn bSpace (joinWith bSpace [fsEscape (prefixOf path), emptyLoc, markerTok]) =
-      [fsEscape (prefixOf path), emptyLoc, markerTok] :=
-    C10.splitOn_joinWith bSpace _ (by simp) (by
-      intro x hx
-      simp only [List.mem_cons, List.not_mem_nil, or_false] at hx
-      rcases hx with rfl | rfl | rfl
-      · exact n3
-      · exact e2
-      · exact m2)
-  have hun : C10.fsUnescape (fsEscape (prefixOf path)) = prefixOf path :=
-    C10.goUnescape_escapeWith C10.isOctDigit _ (fun _ h => h) (by decide) _
-  have hok : C10.componentsOk path = true := by
-    unfold C10.componentsOk
-    rw [List.all_eq_true]
-    intro c hc
-    obtain ⟨⟨h1, h2, h3, _⟩, _⟩ := hpath c hc
-    simp [h1, h2, h3]
+  have hpne' : prefixOf path ≠ [] := by
+    intro he
+    have := congrArg (splitOn bSlash) he
+    rw [splitOn_prefixOf path hns] at this
+    simp [splitOn] at this
   obtain ⟨t1, hw1, hw2, hw3, hw4⟩ := C10.walkParents_spec path [] t hok (by simpa using hnofile)
   have hcreate := walkParents_creates path [] t t1 ([] ++ path) hok hw1
   -- the path of the marker token: "./a/b/."
@@ -115,7 +101,7 @@ theorem fsLine_marker (path : List Bytes) (hpath : PathOK path) (t : FsTree)
     apply splitOn_prefixOf
     intro c hc
     rcases List.mem_append.mp hc with hc | hc
-    · exact (hpath c hc).1.2.2.2
+    · exact hns c hc
     · simp at hc; subst hc; decide
   have hcfp : C10.createFileAndParents (prefixOf path ++ bSlash :: [bDot]) t = (C10.Created.marker, t1) := by
     unfold C10.createFileAndParents
@@ -163,5 +149,36 @@ theorem fsLine_marker (path : List Bytes) (hpath : PathOK path) (t : FsTree)
     · exact Or.inr ⟨pre, h1, h2, by simpa using h3⟩
   · intro pre hp1 hp2
     simpa using hcreate pre hp1 hp2
+
+/-- the marker line as `marshalManifest` writes it -/
+theorem fsLine_marker (path : List Bytes) (hpath : PathOK path) (t : FsTree)
+    (hnofile : ∀ pre, pre ≠ [] → pre <+: path → t.files.any (·.1 = pre) = false) :
+    ∃ t', C10.fsLine (joinWith bSpace [fsEscape (prefixOf path), emptyLoc, markerTok]) t = some t' ∧
+      t'.files = t.files ∧
+      (∀ d ∈ t'.dirs, d ∈ t.dirs ∨ ∃ pre, pre ≠ [] ∧ pre <+: path ∧ d = pre) ∧
+      (∀ d ∈ t.dirs, d ∈ t'.dirs) ∧
+      (∀ pre, pre ≠ [] → pre <+: path → pre ∈ t'.dirs) := by
+  obtain ⟨hname, hpne', hpdel, hsp⟩ := prefixOf_spec path hpath
+  obtain ⟨_, _, n3, _⟩ := fsEscape_token (prefixOf path) hpne' hpdel
+  obtain ⟨_, e2, _⟩ := locator_token _ _ emptyLoc_ok
+  obtain ⟨_, m2, _⟩ := markerTok_token
+  have hsplit : splitOn bSpace (joinWith bSpace [fsEscape (prefixOf path), emptyLoc, markerTok]) =
+      [fsEscape (prefixOf path), emptyLoc, markerTok] :=
+    C10.splitOn_joinWith bSpace _ (by simp) (by
+      intro x hx
+      simp only [List.mem_cons, List.not_mem_nil, or_false] at hx
+      rcases hx with rfl | rfl | rfl
+      · exact n3
+      · exact e2
+      · exact m2)
+  have hun : C10.fsUnescape (fsEscape (prefixOf path)) = prefixOf path :=
+    C10.goUnescape_escapeWith C10.isOctDigit _ (fun _ h => h) (by decide) _
+  have hok : C10.componentsOk path = true := by
+    unfold C10.componentsOk
+    rw [List.all_eq_true]
+    intro c hc
+    obtain ⟨⟨h1, h2, h3, _⟩, _⟩ := hpath c hc
+    simp [h1, h2, h3]
+  exact fsLine_marker_core _ _ path t hsplit hun hok (fun c hc => (hpath c hc).1.2.2.2) hnofile
 
 end ArvVerif.C09
